@@ -55,6 +55,9 @@ func (x *Exec) registerIntrinsics() {
 	// ------------------------------------------------------------ math/bits
 	reg([]string{"math/bits.Mul64", "math/bits.Mul"}, func(p *Path, fn *ssa.Function, a []Value) (Value, *Panic) {
 		pr := p.C.Mul(T(a[0]), T(a[1]))
+		if !T(a[0]).IsConst() && !T(a[1]).IsConst() {
+			p.nonlinear = true
+		}
 		return TupleV{p.C.DivC(pr, two64), p.C.ModC(pr, two64)}, nil
 	})
 	reg([]string{"math/bits.Add64", "math/bits.Add"}, func(p *Path, fn *ssa.Function, a []Value) (Value, *Panic) {
@@ -84,6 +87,9 @@ func (x *Exec) registerIntrinsics() {
 			return nil, p.rtPanic(nil, "integer overflow (bits.Div)")
 		}
 		n := p.C.Add(p.C.MulC(hi, two64), lo)
+		if !y.IsConst() {
+			p.nonlinear = true
+		}
 		return TupleV{p.C.Div(n, y), p.C.Mod(n, y)}, nil
 	})
 	lenChain := func(p *Path, v *term.Term, w int) *term.Term {
